@@ -332,6 +332,104 @@ func instanceHit(cfg *Config, gs []GFlow, events []Event, early, allEarly []stri
 	return "", "", "", false
 }
 
+// siblingOrderHit: "processors run in the order given by the flow's
+// connections".  The observed events of one flow and direction are read as the
+// walk they must be: after a processor that put out c come, one after the other
+// and each with everything it leads to, the targets of ITS connections under c
+// in the order these connections are written in the configuration (a hand-over
+// starts at the targets of all connections of the processor that answered, in
+// written order).  The outputs are the OBSERVED ones.  A hit is raised only where
+// the processor due next is replaced by another target of the same connection
+// group (a sibling): siblings ran in another order than configured.  Anything
+// else that does not fit (a processor off the path, a walk that stops early)
+// is left to the checks below.  Where the entry-point connection stands in the
+// list says nothing about the order of the others.
+func siblingOrderHit(gs []GFlow, t *Txn, orc Oracle) (dir, dem, obs string, bad bool) {
+	type fd struct{ f, d string }
+	groups := map[fd][]Event{}
+	var order []fd
+	for _, e := range t.Events {
+		k := fd{e.Flow, e.Dir}
+		if _, ok := groups[k]; !ok {
+			order = append(order, k)
+		}
+		groups[k] = append(groups[k], e)
+	}
+	for _, k := range order {
+		f := flowByName(gs, k.f)
+		if f == nil {
+			continue
+		}
+		g := &f.Req
+		if k.d == "res" {
+			g = &f.Res
+		}
+		got := groups[k]
+		// where the walk of this flow and direction starts
+		var starts []string
+		from := "the entry point"
+		if g.Root != "" {
+			starts = []string{g.Root}
+		}
+		if k.d == "res" && t.Dir == "req" {
+			for _, e := range groups[fd{k.f, "req"}] {
+				if orc.get(k.f, e.Key, "req").Early {
+					starts = nil
+					if n := g.node(e.Key); n != nil {
+						for _, ed := range n.Edges {
+							if ed.To != "" {
+								starts = append(starts, ed.To)
+							}
+						}
+					}
+					from = "the response connections of " + e.Key + " (which answered the request)"
+				}
+			}
+		}
+		pos := 0
+		stop := false
+		var walk func(targets []string, after string)
+		walk = func(targets []string, after string) {
+			for _, want := range targets {
+				if stop || pos >= len(got) {
+					stop = true
+					return
+				}
+				e := got[pos]
+				if e.Key != want {
+					stop = true
+					if contains(targets, e.Key) {
+						dir, bad = k.d, true
+						dem = fmt.Sprintf("flow %s %s: after %s the connections lead, in the order they are written, to %v; %s is due at event %d",
+							k.f, k.d, after, targets, want, pos)
+						obs = fmt.Sprintf("%s ran there; ran %s", e.Key, evString(got))
+					}
+					return
+				}
+				pos++
+				if k.d == "req" && orc.get(k.f, e.Key, "req").Early {
+					stop = true // it answered: the rest of the request path is skipped
+					return
+				}
+				var next []string
+				if n := g.node(e.Key); n != nil {
+					for _, ed := range n.Edges {
+						if ed.To != "" && ed.Cond == e.Cond {
+							next = append(next, ed.To)
+						}
+					}
+				}
+				walk(next, fmt.Sprintf("%s (output %q)", e.Key, e.Cond))
+			}
+		}
+		walk(starts, from)
+		if bad {
+			return
+		}
+	}
+	return "", "", "", false
+}
+
 // monitor compares what ran with what the text demands.
 func monitor(cfg *Config, gs []GFlow, t *Txn, orc Oracle) (hits []c.Hit, undetermined bool) {
 	add := func(sig, dem, obs string) {
@@ -342,6 +440,11 @@ func monitor(cfg *Config, gs []GFlow, t *Txn, orc Oracle) (hits []c.Hit, undeter
 	// after a wrong one (another output, another path) is a consequence
 	if dir, dem, obs, bad := instanceHit(cfg, gs, t.Events, t.Early, t.AllEarly, t.Headers); bad {
 		add("wrong-processor-instance:"+dir, dem, obs)
+		return hits, free
+	}
+	// (i') siblings run in configured order
+	if dir, dem, ob, bad := siblingOrderHit(gs, t, orc); bad {
+		add("sibling-order:"+dir, dem, ob)
 		return hits, free
 	}
 	// per flow and direction: what ran
